@@ -36,6 +36,13 @@ def _factory(kind, ident):
             LOG.append((ident, args, kwargs))
             raise ValueError("factory %s fails" % ident)
         return boom
+    if kind in ("raiseassert", "raiselookup"):
+        def boom3(*args, **kwargs):
+            LOG.append((ident, args, kwargs))
+            if kind == "raiseassert":
+                assert False, "factory %s rejects its arguments with an assertion" % ident
+            raise KeyError("factory %s fails with a LookupError" % ident)
+        return boom3
     if kind == "cfgerr":
         def boom2(*args, **kwargs):
             from cobald.daemon.config.mapping import ConfigurationError
@@ -73,6 +80,6 @@ def rebind(ident, generation):
 
 def __getattr__(name):
     kind, _, ident = name.partition("_")
-    if kind in ("okf", "okc", "raise", "cfgerr", "notcallable") and ident.isdigit():
+    if kind in ("okf", "okc", "raise", "raiseassert", "raiselookup", "cfgerr", "notcallable") and ident.isdigit():
         return _factory(kind, int(ident))
     raise AttributeError(name)
